@@ -240,6 +240,8 @@ def _worker(src):
 
 
 def direct(run, chk):
+    # version-2 programs inside the whole-program judgement (Props/C19.v): statements, validate(), counts and depth as the theorem says
+    direct.expansion = langcheck.expansion_oracle(run, chk)
     known = {e["id"]: e for e in common.load_known(PROP)}
     srcs = [c["src"] for c in run.cases]
     with multiprocessing.Pool(12) as pool:
@@ -282,4 +284,5 @@ def run(tier, seed, replay):
         return langcheck.replay_cmd(PROP, replay)
     direct.checked = direct.phase = 0
     return langcheck.standard(PROP, tier, seed, cases(tier, seed), classify, direct=direct,
-                              extra_cov=lambda run: {"print_reload_to_qasm3_checked": direct.checked, "with_gphase_known_finding": direct.phase})
+                              extra_cov=lambda run: {"print_reload_to_qasm3_checked": direct.checked, "with_gphase_known_finding": direct.phase,
+                                                     "whole_program_theorem_judgement_on_real_programs": getattr(direct, "expansion", {})})
